@@ -204,12 +204,12 @@ fn is_nl(c: char) -> bool {
 fn skip_nl(mut rest: &str) -> (bool, usize) {
     let mut skip = 0;
     let mut was_nl = false;
-    if let Some(new_rest) = rest.strip_prefix('\n') {
+    if let Some(new_rest) = rest.strip_prefix('\r') {
         rest = new_rest;
         skip += 1;
         was_nl = true;
     }
-    if let Some(new_rest) = rest.strip_prefix('\r') {
+    if let Some(new_rest) = rest.strip_prefix('\n') {
         rest = new_rest;
         skip += 1;
         was_nl = true;
